@@ -1423,12 +1423,13 @@ func (pg *sigPsGroup) runWit(c *sigCase, o *sigOut) {
 			signers[c.I-1], signers[c.J-1] = signers[c.J-1], signers[c.I-1]
 		} else {
 			for q := range signers {
-				signers[q] = uint16(c.S[q]%c.N + 1)
+				signers[q] = pg.a.ids[(pg.a.posOf(c.S[q])+1)%pg.a.n] // the next party of the list
 			}
 		}
 		pa, pb := make([]int64, len(signers)), make([]int64, len(signers))
 		for q := range signers {
-			pa[q], pb[q] = int64(signers[q]), int64(c.S[q]) // ps.Prover uses the party identifier itself as evaluation point
+			// evaluation point of a party = its position in the party list of the key generation
+			pa[q], pb[q] = int64(pg.a.posOf(int(signers[q]))+1), int64(pg.a.posOf(c.S[q])+1)
 		}
 		o.Changed = !sigSameCoefficients(pa, pb)
 	}
